@@ -11,8 +11,8 @@
 (*                    GQLShape (AddAlias, Reorder, Duplicate, Split,        *)
 (*                    WrapSelf, ToNamed, Distribute, Subset)                *)
 (* BFS enumerates every operation within the bounds and its complete orbit; *)
-(* -simulate samples deeper ones.  Every reform state is printed once       *)
-(* (GenConstraint) as [base, op, steps, normOnly].                          *)
+(* -simulate samples deeper ones.  Every visited reform state is printed    *)
+(* once (GenSpec) as [base, op, steps, normOnly].                           *)
 (* MC_C20 checks on the same state graph that the reformulations preserve   *)
 (* shape and agreement under the reference executor.                        *)
 (***************************************************************************)
@@ -135,11 +135,13 @@ Next ==
   \/ Reform
 Spec == Init /\ [][Next]_gvars
 
-\* ----- emission: one line per reform state
-Emit == IF phase = "reform" /\ Len(steps) >= 1
-        THEN PrintT(ToJson([base |-> base, op |-> op, steps |-> steps, normOnly |-> normOnly]))
-        ELSE TRUE
-GenConstraint == Emit
+\* ----- emission: one line per *visited* reform state.  The print is a conjunct of the next-state relation, so it
+\* is evaluated when the successors of a state are computed: once per distinct state in BFS, and only for the
+\* states on the walk in -simulate (a CONSTRAINT would also fire for every successor the simulator merely looks at).
+EmitCur == IF phase = "reform" /\ Len(steps) >= 1
+           THEN PrintT(ToJson([base |-> base, op |-> op, steps |-> steps, normOnly |-> normOnly]))
+           ELSE TRUE
+GenSpec == Init /\ [][EmitCur /\ Next]_gvars
 
 \* ----- MC_C20: the relations are satisfiable and every reformulation preserves them (reference executor)
 RefOK ==
